@@ -10,6 +10,9 @@ import (
 	"fmt"
 	"math/big"
 	"math/rand"
+	"os"
+	"os/exec"
+	"strings"
 	"time"
 
 	g "github.com/zenon-network/go-zenon/chain/genesis/mock"
@@ -127,7 +130,7 @@ func observe(b *BareNode, heights []uint64) observation {
 	for _, blk := range b.Ch.GetAllUncommittedAccountBlocks() {
 		fmt.Fprintf(&pb, "%v;", blk.Hash)
 	}
-	o.pool = pb.String()
+	o.pool = pb.String() + "|" + poolString(b.Ch)
 	// consensus statistics of every epoch up to the frontier and the schedule of the next slots
 	pr := b.Cs.FrontierPillarReader()
 	var sb bytes.Buffer
@@ -151,15 +154,76 @@ func observe(b *BareNode, heights []uint64) observation {
 	return o
 }
 
-func runNodeReorg(rng *rand.Rand, n int, out *Out, _ []string) {
+// The experiments run in a child process whose output is flushed after every experiment: a panic inside a listener
+// while the chain notifies them (AddMomentumTransaction / RollbackTo have unlocked their mutex for the notification and
+// unlock it again in a defer) is a Go "fatal error" that no recover() catches, i.e. the node under test takes the whole
+// process down. The parent turns "the node died during the reorganisation" into a failing oracle with the experiment
+// that was running as its input, and keeps everything the child had reported before.
+func runNodeReorg(rng *rand.Rand, n int, out *Out, args []string) {
 	consensus.EpochDuration = 600 * time.Second // two election ticks (2 x 30 slots of 10 s): the shortest epoch consensus/points.go supports
-	for i := 0; i < n; i++ {
-		nodeReorg(rng, out)
+	if len(args) > 0 && args[0] == "inproc" {
+		for i := 0; i < n; i++ {
+			out.Emit(M{"k": "note", "experiment": i})
+			nodeReorg(rng, out)
+			out.W.Flush()
+		}
+		return
 	}
+	exe, err := os.Executable()
+	if err != nil {
+		panic(err)
+	}
+	tmp := out.F.Name() + ".child"
+	defer os.Remove(tmp)
+	cmd := exec.Command(exe, "nodereorg", "-seed", fmt.Sprint(rng.Int63()), "-n", fmt.Sprint(n), "-out", tmp, "inproc")
+	var buf bytes.Buffer
+	cmd.Stdout, cmd.Stderr = &buf, &buf
+	runErr := cmd.Run()
+	raw, _ := os.ReadFile(tmp)
+	lines := bytes.Split(raw, []byte("\n"))
+	if runErr != nil && len(lines) > 0 {
+		lines = lines[:len(lines)-1] // the last line may be cut
+	}
+	last := M{}
+	for _, l := range lines {
+		if len(l) == 0 {
+			continue
+		}
+		var m M
+		if json.Unmarshal(l, &m) != nil {
+			continue
+		}
+		if m["k"] == "note" {
+			last = m
+			continue
+		}
+		out.W.Write(l)
+		out.W.WriteByte('\n')
+	}
+	if runErr != nil {
+		log := buf.String()
+		at := strings.Index(log, "fatal error:")
+		if p := strings.Index(log, "panic:"); at < 0 || (p >= 0 && p < at) {
+			at = p
+		}
+		if at < 0 {
+			at = len(log) - min(len(log), 1500)
+		}
+		out.Oracle(false, "node-dies-during-reorganisation", M{"error": runErr.Error(), "running": last, "trace": log[at : at+min(len(log)-at, 2500)]})
+	}
+}
+
+func min(a, b int) int {
+	if a < b {
+		return a
+	}
+	return b
 }
 
 func nodeReorg(rng *rand.Rand, out *Out) {
 	G := NewNode()
+	// pool readers run on every insert / delete notification of every node of the experiment (readers.go)
+	gr := withReaders(G.Ch)
 	P := 2 + rng.Intn(8)       // prefix length (momentums after genesis)
 	LA := 1 + rng.Intn(12)     // abandoned branch
 	LB := LA + 1 + rng.Intn(4) // adopted branch, strictly longer
@@ -184,10 +248,17 @@ func nodeReorg(rng *rand.Rand, out *Out) {
 		G.Stop()
 		return
 	}
+	out.Oracle(gr.deletes == LB && gr.reads > 0, "harness-pool-readers-notified", M{"deletes": gr.deletes, "lb": LB})
+	// the generator is itself a node that abandons a branch: nothing of it may be left in its pool ...
+	if !poolEmptyAfterRollback(G.Ch, out, "generator after RollbackTo") {
+		G.Stop()
+		return
+	}
 	// only some of the accounts are active on the abandoned branch
 	na := 1 + rng.Intn(3)
 	produce(rng, G, LA, out, users[:na])
 	chainA := WireCopyAll(DetailedRange(G.Ch, 2, G.FrontierHeight()))
+	poolOnLedger(G.Ch, out, "generator after producing the other branch")
 	G.Stop()
 	if uint64(len(chainA)) != forkH-1+uint64(LA) || uint64(len(chainB)) != forkH-1+uint64(LB) {
 		// the generator itself is a node that was rolled back: it must keep producing (one momentum per slot)
@@ -200,11 +271,14 @@ func nodeReorg(rng *rand.Rand, out *Out) {
 		return
 	}
 	out.Count(fmt.Sprintf("reorg:depth=%d", LA))
+	out.Emit(M{"k": "note", "experiment": "receiver switches branches", "fork": forkH, "la": LA, "lb": LB})
+	out.W.Flush()
 
 	R := OpenBare("")
 	defer R.Destroy()
 	F := OpenBare("")
 	defer F.Destroy()
+	rr := withReaders(R.Ch) // (the reference F only ever sees the adopted branch, nobody reads its pool in between)
 	if _, err := R.Br.InsertChain(chainA); err != nil {
 		out.Oracle(false, "receiver-rejected-branch-A", M{"err": err.Error()})
 		return
@@ -240,7 +314,21 @@ func nodeReorg(rng *rand.Rand, out *Out) {
 		}
 	}
 	out.Count(fmt.Sprintf("reorg:pooled-before-switch=%d", pooled))
-	// the switch: the same entry point the downloader/fetcher use
+	// the switch: the same entry point the downloader/fetcher use; in half of the runs its two halves (RollbackTo to the
+	// fork point, then insertion of the other branch) are made one after the other, so that the node is observed in between
+	if rng.Intn(2) == 0 {
+		if err := RollbackTo(R.Ch, chainA[forkH-2].Momentum.Identifier()); err != nil {
+			out.Oracle(false, "receiver-rollback-failed", M{"err": err.Error()})
+			return
+		}
+		out.Oracle(rr.deletes == LA, "harness-pool-readers-notified", M{"deletes": rr.deletes, "la": LA})
+		if !poolEmptyAfterRollback(R.Ch, out, "receiver after RollbackTo, before the adopted branch") {
+			return
+		}
+		out.Count("reorg:switch-in-two-steps")
+	} else {
+		out.Count("reorg:switch-by-InsertChain")
+	}
 	if _, err := R.Br.InsertChain(chainB[forkH-1:]); err != nil {
 		out.Oracle(false, "receiver-rejected-longer-branch-B", M{"err": err.Error(), "fork": forkH, "la": LA, "lb": LB})
 		return
@@ -249,6 +337,8 @@ func nodeReorg(rng *rand.Rand, out *Out) {
 		out.Oracle(false, "reference-rejected-branch-B", M{"err": err.Error()})
 		return
 	}
+	out.Oracle(rr.deletes == LA, "harness-pool-readers-notified", M{"deletes": rr.deletes, "la": LA})
+	poolOnLedger(R.Ch, out, "receiver after the switch")
 	or, of := observe(R, hs), observe(F, hs)
 	out.Oracle(or.frontier == of.frontier, "reorg-frontier-differs", M{"r": or.frontier, "f": of.frontier})
 	out.Oracle(or.state == of.state, "reorg-ledger-state-differs", M{"fork": forkH, "la": LA, "lb": LB})
